@@ -132,6 +132,11 @@ func (f *FileOutputHandler) Load(
 		reader = progress.WrapReader(contentReader)
 	}
 
+	// The output's directory may have been removed since the output was cached
+	if err := os.MkdirAll(filepath.Dir(absOutputPath), 0755); err != nil {
+		return err
+	}
+
 	outputFile, err := os.Create(absOutputPath)
 	if err != nil {
 		return err
